@@ -240,6 +240,21 @@ func classifyPanicSite(w *World, fn *ssa.Function, in ssa.Instruction, groups ma
 				}
 			}
 			n, bad := lookupEdges(phi, map[*ssa.Phi]bool{})
+			// a local that starts as nil and is set inside a loop (`var last *T; for … { last = x }; last.f`)
+			hasNil := false
+			for _, l := range phiLeaves(phi, map[ssa.Value]bool{}) {
+				if isNilConst(l) {
+					hasNil = true
+				}
+			}
+			if hasNil {
+				if why := nilCoupledToList(w, fn, x, phi); why != "" {
+					return "nil-local-deref", "", "field of a local that is nil until a loop assigns it: " + why
+				}
+				if n == 0 || bad == nil {
+					return "nil-local-deref", "GN1", "non-nil whenever the list tested non-empty at the use holds an element: every iteration that appends to that list leaves the local assigned"
+				}
+			}
 			if n == 0 {
 				return "", "", ""
 			}
@@ -271,6 +286,128 @@ func classifyPanicSite(w *World, fn *ssa.Function, in ssa.Instruction, groups ma
 		return classifySlice(w, fn, x, nonEmpty)
 	}
 	return "", "", ""
+}
+
+// nilCoupledToList discharges the dereference fa of a pointer local P that is nil before a loop: at the use some list S
+// is known to be non-empty, S is empty where the loop is entered, and every iteration that appends to S leaves P
+// assigned (non-nil, resolved along the edges that iteration takes) when it ends. Appends of a constant that cannot
+// satisfy a HasSuffix(S[0], c) guard of the use are exempt. Returns "" when discharged, else the reason.
+func nilCoupledToList(w *World, fn *ssa.Function, fa *ssa.FieldAddr, p *ssa.Phi) string {
+	// the loop-header phi through which nil enters
+	var L *ssa.Phi
+	var walk func(v ssa.Value, seen map[ssa.Value]bool)
+	walk = func(v ssa.Value, seen map[ssa.Value]bool) {
+		ph, ok := v.(*ssa.Phi)
+		if !ok || seen[v] {
+			return
+		}
+		seen[v] = true
+		h := ph.Block()
+		isHeader := false
+		for _, pr := range h.Preds {
+			if h.Dominates(pr) {
+				isHeader = true
+			}
+		}
+		for i, e := range ph.Edges {
+			if isNilConst(e) && isHeader && !h.Dominates(h.Preds[i]) {
+				L = ph
+			}
+			walk(e, seen)
+		}
+	}
+	walk(p, map[ssa.Value]bool{})
+	if L == nil {
+		return "no loop found that assigns it"
+	}
+	h := L.Block()
+	loop := naturalLoop(h)
+	b := fa.Block()
+	// the list known to be non-empty at the use
+	var S *ssa.Phi
+	var suffixes []string
+	for _, f := range factsAt(b) {
+		for _, side := range []ssa.Value{f.X, f.Y} {
+			if side == nil {
+				continue
+			}
+			if c, ok := lenOf(side); ok && minLenAt(b, c) >= 1 {
+				if ph, ok := c.(*ssa.Phi); ok && ph.Block() == h {
+					S = ph
+				}
+			}
+		}
+		if f.Op == token.ILLEGAL && f.Truth {
+			if c, ok := f.X.(*ssa.Call); ok && calleeName(c) == "strings.HasSuffix" {
+				if sfx, ok := constString(c.Call.Args[1]); ok {
+					suffixes = append(suffixes, sfx)
+				}
+			}
+		}
+	}
+	if S == nil {
+		return "no list is known to be non-empty at the use"
+	}
+	for i, e := range S.Edges {
+		if h.Dominates(h.Preds[i]) {
+			continue
+		}
+		empty := isNilConst(e)
+		if sl, ok := e.(*ssa.Slice); ok {
+			if n, ok := arrayLenOfPtr(sl.X.Type()); ok && n == 0 {
+				empty = true
+			}
+		}
+		if !empty {
+			return "the list is not known to be empty where the loop starts"
+		}
+	}
+	ig := buildIG(fn)
+	for blk := range loop {
+		for _, in := range blk.Instrs {
+			c, ok := in.(*ssa.Call)
+			if !ok || calleeName(c) != "builtin:append" || !appendChainOf(c.Call.Args[0], S, map[ssa.Value]bool{}) {
+				continue
+			}
+			// exempt: a constant element that cannot satisfy the suffix guard of the use
+			exempt := false
+			if els, _, ok := elementsOf(c.Call.Args[1], map[ssa.Value]bool{}); ok && len(els) == 1 && len(suffixes) > 0 {
+				for _, f := range factsAt(blk) {
+					if f.Op == token.EQL && f.Y != nil && f.X == els[0] {
+						if sv, ok := constString(f.Y); ok {
+							exempt = true
+							for _, sfx := range suffixes {
+								if strings.HasSuffix(sv, sfx) {
+									exempt = false
+								}
+							}
+						}
+					}
+				}
+			}
+			if exempt {
+				continue
+			}
+			ig.recordEdges = map[[2]*ssa.BasicBlock]bool{}
+			_, okR := ig.reachVSInit(ig.after(c), func(i2 ssa.Instruction) bool { return i2 == h.Instrs[0] }, nil, nil)
+			edges := ig.recordEdges
+			ig.recordEdges = nil
+			if !okR {
+				return "path search exhausted"
+			}
+			for i, pr := range h.Preds {
+				if !h.Dominates(pr) || !edges[[2]*ssa.BasicBlock{pr, h}] {
+					continue
+				}
+				for _, v := range valuesFromEdges(L.Edges[i], edges, map[ssa.Value]bool{}) {
+					if _, isPhi := v.(*ssa.Phi); isPhi || isNilConst(v) {
+						return "an iteration can add to the list (at " + w.IPos(c) + ") and end without having assigned the local"
+					}
+				}
+			}
+		}
+	}
+	return ""
 }
 
 // lookupEdges walks the edges of a pointer-typed phi: n = number of map lookups that flow in, bad = one that is not
